@@ -47,6 +47,8 @@ ASSUMPTIONS = ["acyclic inputs; a value in which one object occurs at several po
 
 HEADER = ("From DD Require Import Base.PyStr Base.Value Hash.HashModel Hash.HashShow.\n"
           "Local Open Scope Z_scope.")
+HEADER_SHARED = ("From DD Require Import Base.PyStr Base.Value Hash.HashModel Hash.HashShow Hash.HashShowShared.\n"
+                 "Local Open Scope Z_scope.")
 
 # (ignore_repetition, ignore_iterable_order, ignore_private_variables, ignore_string_case,
 #  ignore_string_type_changes, ignore_numeric_type_changes, significant_digits)
@@ -133,10 +135,9 @@ def impl_hash(v, o, hasher=None, hashes=None):
     return dh[v], dh
 
 
-def impl_chain(vs, o, pass_object):
-    """successive DeepHash calls sharing one table; returns (roots, table)."""
+def impl_chain_dh(vs, o, pass_object):
+    """successive DeepHash calls sharing one table; returns (roots, the last DeepHash object)."""
     from deepdiff import DeepHash
-    tbl = None
     roots = []
     dh = None
     for v in vs:
@@ -146,8 +147,70 @@ def impl_chain(vs, o, pass_object):
             k["hashes"] = dh if pass_object else dh.hashes
         dh = DeepHash(v, **k)
         roots.append(dh[v])
-    tbl = table_of(dh.hashes, vs)
-    return roots, tbl
+    return roots, dh
+
+
+def impl_chain(vs, o, pass_object):
+    """successive DeepHash calls sharing one table; returns (roots, table)."""
+    roots, dh = impl_chain_dh(vs, o, pass_object)
+    return roots, table_of(dh.hashes, vs)
+
+
+def _hashable_py(x):
+    try:
+        hash(x)
+        return True
+    except TypeError:
+        return False
+
+
+def visit_counts(vs, o):
+    """id -> how often a run of DeepHash(v, **kw(o)) over the values vs COMPUTES each unhashable container: `_hash` looks the
+    table up by the object itself (TypeError for an unhashable one, so it is never served from the table) and writes it under
+    its id; an object at k positions (by identity) is therefore computed k times and its id-keyed entry written k times, as
+    are the unhashable containers below it.  Items under private keys are not visited when ignore_private_variables is set;
+    a hashable tuple / frozenset is keyed by == and holds no unhashable container."""
+    cnt = {}
+
+    def walk(x):
+        if not isinstance(x, (list, tuple, dict, set, frozenset)) or _hashable_py(x):
+            return
+        cnt[id(x)] = cnt.get(id(x), 0) + 1
+        if isinstance(x, dict):
+            for k, y in x.items():
+                if o[2] and isinstance(k, str) and k.startswith("__"):
+                    continue
+                walk(y)
+        elif isinstance(x, (list, tuple)):
+            for y in x:
+                walk(y)
+    for v in vs:
+        walk(v)
+    return cnt
+
+
+def table_split(hashes, roots, o):
+    """The table of a run over values in which one object occurs at several positions, in the form of
+    Hash/HashShowShared.run_chain_split: (==-keyed entries in insertion order, id-keyed entries - each repeated once per visit
+    of its object, the model's unfolded tree has one per position - sorted)."""
+    from deepdiff.deephash import BoolObj, UNPROCESSED_KEY
+    from deepdiff.helper import ID_PREFIX
+    ids = {}
+    for r in roots:
+        _collect_ids(r, ids)
+    cnt = visit_counts(roots, o)
+    keyed, by_id = [], []
+    for k, val in hashes.items():
+        if k is UNPROCESSED_KEY:
+            continue
+        h = val[0]
+        if isinstance(k, BoolObj):
+            keyed.append([["K", values.canon(k is BoolObj.TRUE)], h])
+        elif isinstance(k, str) and k.startswith(ID_PREFIX) and k in ids:
+            by_id += [[["I", values.canon(ids[k])], h]] * cnt.get(id(ids[k]), 1)
+        else:
+            keyed.append([["K", values.canon(k)], h])
+    return keyed, core.sx_sorted(by_id)
 
 
 # ---------------------------------------------------------------------------
@@ -879,7 +942,7 @@ def has_empty_key(v):
 
 
 def corr_single(ctx, vals, modes, name, label):
-    cases = []
+    cases, shared = [], []
     for v in vals:
         for o in modes:
             if o[4] and has_empty_key(v):
@@ -890,25 +953,38 @@ def corr_single(ctx, vals, modes, name, label):
                 continue
             root, dh = impl_hash(v, o, hexhasher)
             if has_sharing(v):
-                # one object at several positions: the id-keyed table entries are per object, the model's per position;
-                # the root hash must still be that of the unfolded tree
-                cases.append(("sx_str (deephash hexhash %s %s)" % (coq_opts(o), values.to_coq(v)), root,
-                              {"value": expr_shared(v), "opts": list(o), "impl_root": unhex(root)[:300], "check": "root only (shared sub-object)"}))
+                # one object at several positions: the id-keyed table entries are per object, the model's (unfolded tree) per
+                # position: root, ==-keyed entries in order, id-keyed entries repeated per visit (table_split)
+                keyed, by_id = table_split(dh.hashes, [v], o)
+                shared.append(("run_chain_split %s [%s]" % (coq_opts(o), values.to_coq(v)), [[root], keyed, by_id],
+                               {"value": expr_shared(v), "opts": list(o), "impl_root": unhex(root)[:300],
+                                "check": "root + ==-keyed entries in order + id-keyed entries per visit (shared sub-object)"}))
                 continue
             exp = [root, table_of(dh.hashes, [v])]
             cases.append(("run_one %s %s" % (coq_opts(o), values.to_coq(v)), exp,
                           {"value": expr_shared(v), "opts": list(o), "impl_root": unhex(root)[:300]}))
-    return ctx.coq_cases(name, HEADER, cases, shard=60, label=label)
+    bad = ctx.coq_cases(name, HEADER, cases, shard=60, label=label)
+    return bad + ctx.coq_cases(name + "_shared", HEADER_SHARED, shared, shard=60, label=label + "_shared_objects")
 
 
 def corr_chain(ctx, chains, modes, name, label):
-    cases = []
+    """successive calls on one table.  All values of a chain stay alive for the whole chain (the caller holds them: the
+    pre-seeded-table clause is about live objects; a freed container's id could be re-used).  A chain holding a value in which
+    one object occurs at several positions is compared in the form of table_split (see corr_single)."""
+    cases, shared = [], []
     for i, vs in enumerate(chains):
         for o in modes:
+            if any(has_sharing(v) for v in vs) or len(set(id(v) for v in vs)) < len(vs):
+                roots, dh = impl_chain_dh(vs, o, pass_object=(i % 2 == 0))
+                keyed, by_id = table_split(dh.hashes, vs, o)
+                shared.append(("run_chain_split %s [%s]" % (coq_opts(o), "; ".join(values.to_coq(v) for v in vs)), [roots, keyed, by_id],
+                               {"values": [expr_shared(v) for v in vs], "opts": list(o), "check": "chain with a shared sub-object"}))
+                continue
             roots, tbl = impl_chain(vs, o, pass_object=(i % 2 == 0))
             cases.append(("run_chain %s [%s]" % (coq_opts(o), "; ".join(values.to_coq(v) for v in vs)), [roots, tbl],
-                          {"values": [repr(v) for v in vs], "opts": list(o)}))
-    return ctx.coq_cases(name, HEADER, cases, shard=40, label=label)
+                          {"values": [expr_shared(v) for v in vs], "opts": list(o)}))
+    bad = ctx.coq_cases(name, HEADER, cases, shard=40, label=label)
+    return bad + ctx.coq_cases(name + "_shared", HEADER_SHARED, shared, shard=40, label=label + "_shared_objects")
 
 
 def all_atoms(v, out=None):
